@@ -105,6 +105,25 @@ ADDENDA6 = {
 for _k, _v in ADDENDA6.items():
     ADDENDA[_k] = ADDENDA.get(_k, '') + _v
 
+ADDENDA7 = {
+    'C02': '  The empty rex list; null-valued constraints on fields the data lacks (the absence decides).',
+    'C03': '  A varying punctuation character with 6-10 distinct values (backslash, caret, brackets, hyphen).',
+    'C04': '  A preprocess that is not idempotent.',
+    'C05': '  sortby with two or three keys.',
+    'C06': "  Index labels and names are part of 'the input frame is unchanged'.",
+    'C08': '  The column as a member of a composite primary key.',
+    'C09': '  Names containing U+FEFF; the dictionary as to_dict() returns it.',
+    'C10': '  Kinds called csv / table / graph / text; the legacy assertCSVFileCorrect (found and repaired D39).',
+    'C11': '  An earlier generation in the same directory under a script name differing in letter case; an 80-160 KiB output that is ASCII but for its end.',
+    'C12': '  A history in which the changed command is run by hand before the first test run.',
+    'C13': '  Letters with unusual case mappings; a constant backslash before constant text.',
+    'C16': '  Header-only tables.',
+    'C17': "  RowNumber of the command's output = records of the library's result; an integer field delivered as floats.",
+    'C19': '  Real scripts ending in ReferenceTestCase.main() with class names and with a load_tests() hook.',
+}
+for _k, _v in ADDENDA7.items():
+    ADDENDA[_k] = ADDENDA.get(_k, '') + _v
+
 
 def register(claim):
     claim('C10',
